@@ -498,6 +498,7 @@ fn gen_value_for(rng: &mut Rng, p: &ValParser) -> String {
         ValParser::Boolish => (*rng.pick(&["yes", "no", "on", "off", "1", "0", "true", "false"])).to_string(),
         ValParser::Possible(pvs) => rng.pick(pvs).name.clone(),
         ValParser::Reject(_) => "okval".to_string(),
+        ValParser::EnumVp => (*rng.pick(&["fast", "slow", "s", "hidden-one"])).to_string(),
         ValParser::Edge(k) => {
             let (_, lo, hi) = edge_language(*k);
             if lo > hi {
@@ -526,7 +527,7 @@ fn gen_parser(rng: &mut Rng, cfg: &GenCfg, sw: &Swarm, n: usize) -> ValParser {
         2 => {
             if rng.chance(1, 6) {
                 // bounds on the extremes of the 64-bit types, exclusive and empty ranges
-                ValParser::Edge(rng.below(10) as u8)
+                ValParser::Edge(rng.below(12) as u8)
             } else if rng.coin() {
                 ValParser::U16
             } else {
@@ -543,7 +544,13 @@ fn gen_parser(rng: &mut Rng, cfg: &GenCfg, sw: &Swarm, n: usize) -> ValParser {
                 ValParser::Int { w, range: if a <= b { range } else { None } }
             }
         }
-        3 => ValParser::Bool,
+        3 => {
+            if rng.chance(1, 3) {
+                ValParser::EnumVp
+            } else {
+                ValParser::Bool
+            }
+        }
         4 => ValParser::Boolish,
         5 | 6 => {
             let k = rng.urange(1, 4);
